@@ -34,7 +34,7 @@ def codecOps : List String := ["encode", "int_encode", "encoded_size", "max_enco
   "to_ne_bytes", "from_le_bytes", "from_be_bytes", "from_ne_bytes", "bits_roundtrip", "wrapping_bits"]
 
 def isConvOp (op : String) : Bool :=
-  op.startsWith "cv_" || op.startsWith "cmp_" || op.startsWith "icv_" || op.startsWith "icmp" || op.startsWith "fcv_" ||
+  op.startsWith "cv_" || op.startsWith "cvt_" || op.startsWith "cmp_" || op.startsWith "icv_" || op.startsWith "icmp" || op.startsWith "fcv_" ||
   op.startsWith "fcmp" || op.startsWith "same_" || op == "h_to_fixed_helper" || op == "h_to_float_kind" || op == "h_from_to_float"
 
 def isTextOp (op : String) : Bool := op == "h_from_str" || op.startsWith "p_" || op == "h_fmt" || op == "f_fmt" || op == "rt"
